@@ -27,6 +27,7 @@ THEOREMS = [
     "O2P.Gate.cover_sound",
     "O2P.Gate.cover_sound_universe",
     "O2P.Gate.or_inference_sound",
+    "O2P.Gate.or_inference_tree_sound",
     "O2P.Gate.or_test_spec",
     "O2P.Gate.or_inference_leaves_sound",
     "O2P.Gate.post_flat_or_sound",
@@ -278,13 +279,36 @@ def run(ctx: Ctx) -> None:
         for t in sel:
             items.append({"n": n, **t})
     ctx.cov["domain_sizes"] = counts
+    # the same trees under event names that are valid but unusual: names that are prefixes / concatenations of one
+    # another (two orderings of a set may then spell the same string), blanks at the edges, marker-like and
+    # punctuation names.  All of n <= 3, a seeded part of the larger sizes.
+    namings = [
+        {"a": "A", "b": "AA", "c": "B", "d": "AB", "e": "BA", "f": "AAA"},
+        {"a": "x", "b": "xx", "c": "xxx", "d": "y", "e": "xy", "f": "yx"},
+        {"a": "a ", "b": " a", "c": "a", "d": "x;y", "e": "|||", "f": "q:r"},
+        {"a": "1", "b": "11", "c": "0042", "d": "|||AUDIT|||", "e": "[z]", "f": "50%"},
+    ]
+
+    def ren(t: Any, m: dict[str, str]) -> Any:
+        return m[t] if isinstance(t, str) else [t[0]] + [ren(x, m) for x in t[1:]]
+    renamed = []
+    for it in items:
+        keep = it["n"] <= 3 or ctx.rng.random() < (0.25 if it["n"] == 4 else 0.04)
+        if keep:
+            m = namings[ctx.rng.randrange(len(namings))] if it["n"] > 3 else None
+            for mm in ([m] if m else namings):
+                renamed.append({"n": it["n"], "subclass": it["subclass"], "tree": ren(it["tree"], mm),
+                                "family": [[mm[x] for x in s] for s in it["family"]], "renamed": True})
+    ctx.tick("trees_under_unusual_names", len(renamed))
+    items_plain = len(items)
+    items += renamed
     seeds = [0, 1] if quick else [0, 1, 2, 3]
     ctx.cov["rule"] = (
         f"every gate tree over n distinct events, depth <= 3, alternating operators (Lean-enumerated: {counts}); all of "
         f"n <= {4 if quick else 5} and a seeded {'third of 5' if quick else 'twelfth of 6'}; the real calculate_logic_gates "
         f"on the full outcome family of each, under interpreter hash seeds {seeds}. non-trivial: depth >= 2"
     )
-    post_part(ctx, items, seeds)
+    post_part(ctx, items[:items_plain], seeds)
     # batches per hash seed
     reqs, meta = [], []
     B = 40
@@ -318,7 +342,7 @@ def run(ctx: Ctx) -> None:
             ctx.case(it["tree"], str(it["tree"]).count("[") >= 2,
                      sample={"tree": it["tree"], "family": it["family"], "inferred": res.get("tree")}
                      if ctx.cov["evaluations"] % 397 == 0 else None)
-            ctx.tick(f"n{it['n']}")
+            ctx.tick(f"n{it['n']}" + ("_renamed" if it.get("renamed") else ""))
             ctx.tick("subclass" if it["subclass"] else "outside_subclass")
         inp = {"tree": it["tree"], "family": it["family"], "hash_seed": hs}
         if "error" in res:
